@@ -56,6 +56,7 @@ FILES = ["ga", "gb"]
 def gen(rng: random.Random, tier: str) -> dict:
     cfg = gen_cfg(rng)
     cfg["drift"] = 0.0
+    cfg["svc_params_delay_ms"] = rng.choice([0, 0, 2.0, 8.0])  # injected suspension inside ServiceDecorator.start()
     templates = []
     for _ in range(rng.randint(2, 4)):
         kinds = sorted(rng.sample(KINDS, rng.choice([1, 2, 2, 3, 4])), key=KINDS.index)
@@ -191,7 +192,8 @@ def simplify(scn: dict):
         cand = copy.deepcopy(scn)
         del cand["spec"]["files"][name]
         yield cand
-    for key, val in (("timer_late_ms", 0.0), ("cost_us", 50), ("exec_latency_ms", [0.0, 0.0]), ("set_order_salt", 0)):
+    for key, val in (("timer_late_ms", 0.0), ("cost_us", 50), ("exec_latency_ms", [0.0, 0.0]), ("set_order_salt", 0),
+                     ("svc_params_delay_ms", 0)):
         if scn["cfg"].get(key) != val:
             cand = copy.deepcopy(scn)
             cand["cfg"][key] = val
